@@ -440,6 +440,17 @@ impl DnsCache {
             });
         }
 
+        // SRV, TXT and NSEC records of names that no cached PTR refers to (they
+        // arrived without one, or it is gone already) are not reached by the loop
+        // above. Evict them here, otherwise they stay forever; there is no
+        // instance to report for them.
+        for records_map in [&mut self.srv, &mut self.txt, &mut self.nsec] {
+            records_map.retain(|_, records| {
+                records.retain(|r| !r.record.get_record().is_expired(now));
+                !records.is_empty()
+            });
+        }
+
         expired_instances
     }
 
